@@ -191,8 +191,13 @@ class _STIXBase(collections.abc.Mapping):
             # loophole for custom_properties...
             allow_custom = True
 
-        all_custom_prop_names = (custom_kwargs | custom_props.keys()) - \
-            self._properties.keys()
+        if has_unregistered_toplevel_extension:
+            # (as above: whatever way an extra property was given)
+            all_custom_prop_names = set()
+        else:
+            all_custom_prop_names = (custom_kwargs | custom_props.keys()) - \
+                self._properties.keys() - \
+                registered_toplevel_extension_props.keys()
         if all_custom_prop_names:
             if not isinstance(self, stix2.v20._STIXBase20):
                 for prop_name in all_custom_prop_names:
@@ -215,11 +220,11 @@ class _STIXBase(collections.abc.Mapping):
         # (in a definite order: as the extensions define them, then as given --
         # a set would make the serialized order depend on the hash seed)
         toplevel_extension_props = list(registered_toplevel_extension_props)
-        toplevel_extension_props.extend(
-            name for name in kwargs
-            if name not in self._properties and name not in custom_kwargs and
-            name not in registered_toplevel_extension_props
-        )
+        for name in itertools.chain(kwargs, custom_props):
+            if name not in self._properties and \
+                    name not in all_custom_prop_names and \
+                    name not in toplevel_extension_props:
+                toplevel_extension_props.append(name)
         property_order = itertools.chain(
             self._properties,
             toplevel_extension_props,
